@@ -161,6 +161,8 @@ def layers(tier):
                     'filter_tables on all pairs of tables with <= %d rows over subsets of %d tokens '
                     '(every token-frequency context), packed 600 per call' % (r, k),
                     min_nontrivial=1000, chunksize=4))
+    from checks.configx import filter_config_layer
+    Ls.append(filter_config_layer(['C04'], quick))
     Ls.extend(suffix_layers(pres))
     return Ls
 
